@@ -110,6 +110,35 @@ func opLongReorg() error {
 			mismatch = fmt.Sprintf("%s then restart and redelivery: store {%s} / {%s}, uninterrupted run {%s}", f, a2, b2, ref)
 		}
 	}
+	// the same on a short chain with the COMMIT of each write failing (a reader on another connection holds the table):
+	// "a write that could not be committed has failed" - the three cases run side by side (the driver waits 5 s each time)
+	if mismatch == "" && os.Getenv("VERIF_BUSY") != "0" {
+		type br struct{ a1, a2, ares, b1, b2, bres string; err error }
+		ch := make(chan br, 3)
+		for _, k := range []string{"1", "2", "3"} {
+			go func(k string) {
+				var x br
+				x.a1, x.a2, x.ares, x.err = run("callb-"+k, "err@"+k, false)
+				if x.err == nil {
+					x.b1, x.b2, x.bres, x.err = run("busy-"+k, "busy@"+k, false)
+				}
+				ch <- x
+			}(k)
+		}
+		for i := 0; i < 3; i++ {
+			x := <-ch
+			if x.err != nil {
+				return x.err
+			}
+			if mismatch == "" && (x.a1 != x.b1 || x.ares != x.bres) {
+				mismatch = fmt.Sprintf("a write whose COMMIT fails: with the write failing outright the store is {%s} (%s), with its commit failing it is {%s} (%s)", x.a1, x.ares, x.b1, x.bres)
+			}
+			if mismatch == "" && (x.a2 != ref || x.b2 != ref) {
+				mismatch = fmt.Sprintf("commit failure then restart and redelivery: store {%s} / {%s}, uninterrupted run {%s}", x.a2, x.b2, ref)
+			}
+		}
+		out["commit_failures_injected"] = 3
+	}
 	out["mismatch"] = mismatch
 	js, _ := json.Marshal(out)
 	return os.WriteFile(os.Getenv("VERIF_OUT"), js, 0o644)
